@@ -169,6 +169,13 @@ impl Bulk {
 /// rejected item (or Ok), and - for extend_* - that the builder continues with
 /// exactly the items accepted before it.
 pub fn run_bulk(bulk: Bulk, h: &[Kv]) -> Result<(), String> {
+    run_bulk_then(bulk, h, None)
+}
+
+/// As `run_bulk`; for the extend_* entry points `next` is one further insert
+/// made after the bulk call returned (Ok or Err): its verdict must be what
+/// the reference builder says after the items accepted so far.
+pub fn run_bulk_then(bulk: Bulk, h: &[Kv], next: Option<&Kv>) -> Result<(), String> {
     guard(|| {
         let mut m = RefBuilder::default();
         let mut want = Verdict::Ok;
@@ -179,6 +186,16 @@ pub fn run_bulk(bulk: Bulk, h: &[Kv]) -> Result<(), String> {
                 break;
             }
         }
+        // the optional further call, judged by the reference builder
+        let next_want: Option<Verdict> = next.map(|(k, v)| m.call(bulk.is_map(), k, *v));
+        let do_next = |r: fst::Result<()>| -> Result<(), String> {
+            let got = classify(&r)?;
+            let want = next_want.clone().unwrap();
+            if got != want {
+                return Err(format!("{:?} then insert({}): returned {:?}, the reference builder says {:?}", bulk, key_str(&next.unwrap().0), got, want));
+            }
+            Ok(())
+        };
         // greater than every key of both alphabets
         let tail: Kv = (vec![0xff, 0xff, 0xff], if bulk.is_map() { 9 } else { 0 });
         let (got, content): (Verdict, Option<Vec<Kv>>) = match bulk {
@@ -206,6 +223,9 @@ pub fn run_bulk(bulk: Bulk, h: &[Kv]) -> Result<(), String> {
                     b.extend_stream(VecStreamU64::new(h))
                 };
                 let v = classify(&r)?;
+                if let Some((k, val)) = next {
+                    do_next(b.insert(k, *val))?;
+                }
                 b.insert(&tail.0, tail.1).map_err(|e| format!("insert after bulk call failed: {:?}", e))?;
                 let bytes = b.into_inner().map_err(|e| format!("{:?}", e))?;
                 (v, Some(front::read_raw(&bytes)?))
@@ -218,6 +238,9 @@ pub fn run_bulk(bulk: Bulk, h: &[Kv]) -> Result<(), String> {
                     b.extend_stream(VecStreamKeys::new(h))
                 };
                 let v = classify(&r)?;
+                if let Some((k, _)) = next {
+                    do_next(b.insert(k))?;
+                }
                 b.insert(&tail.0).map_err(|e| format!("insert after bulk call failed: {:?}", e))?;
                 let bytes = b.into_inner().map_err(|e| format!("{:?}", e))?;
                 (v, Some(front::read_raw(&bytes)?))
@@ -230,6 +253,9 @@ pub fn run_bulk(bulk: Bulk, h: &[Kv]) -> Result<(), String> {
                     b.extend_stream(VecStream::new(h))
                 };
                 let v = classify(&r)?;
+                if let Some((k, val)) = next {
+                    do_next(b.insert(k, *val))?;
+                }
                 b.insert(&tail.0, tail.1).map_err(|e| format!("insert after bulk call failed: {:?}", e))?;
                 let bytes = b.into_inner().map_err(|e| format!("{:?}", e))?;
                 (v, Some(front::read_raw(&bytes)?))
@@ -267,7 +293,8 @@ pub fn replay(case: &Value) -> Result<String, String> {
         run_history(*k, &h).map(|_| "history agrees with the model".into())
     } else {
         let b = BULKS.iter().find(|k| format!("{:?}", k) == name).unwrap();
-        run_bulk(*b, &h).map(|_| "bulk call agrees with the model".into())
+        let next: Option<Kv> = case.get("next").filter(|n| !n.is_null()).map(|n| (unhex(n[0].as_str().unwrap()), n[1].as_u64().unwrap()));
+        run_bulk_then(*b, &h, next.as_ref()).map(|_| "bulk call agrees with the model".into())
     }
 }
 
@@ -279,7 +306,7 @@ pub fn plan(tier: Tier) -> Plan {
     } else {
         vec![b"".to_vec(), b"a".to_vec(), b"a\0".to_vec(), b"ab".to_vec(), b"b".to_vec()]
     };
-    p.rule = format!("every call history (valid, duplicate, smaller and empty keys at every position) of length <= depth over insert(k[,v]), k in {} keys, v in {{0,5}} for maps, on MapBuilder, SetBuilder, raw::Builder(insert only / add only); after EVERY prefix the builder is finished on a replayed copy and read back; each call result (variant and payload) and the content are compared with a reference builder; the same histories go through from_iter / extend_iter / extend_stream (followed by a further valid insert). non-trivial = histories containing at least one rejected call", keys.len());
+    p.rule = format!("every call history (valid, duplicate, smaller and empty keys at every position) of length <= depth over insert(k[,v]), k in {} keys, v in {{0,5}} for maps, on MapBuilder, SetBuilder, raw::Builder(insert only / add only); after EVERY prefix the builder is finished on a replayed copy and read back; each call result (variant and payload) and the content are compared with a reference builder; the same histories go through from_iter / extend_iter / extend_stream (followed by one further insert of every key of the alphabet, judged by the reference builder, and a final valid insert). non-trivial = histories containing at least one rejected call", keys.len());
     p.assumptions = vec!["mixing add and insert on one raw builder is outside the property".into()];
     let alphabet_map: Vec<Kv> = keys.iter().flat_map(|k| [(k.clone(), 0u64), (k.clone(), 5u64)]).collect();
     let alphabet_set: Vec<Kv> = keys.iter().map(|k| (k.clone(), 0u64)).collect();
@@ -338,6 +365,18 @@ pub fn plan(tier: Tier) -> Plan {
                             st.count("bulk_calls", 1);
                             if let Err(msg) = run_bulk(bulk, &h) {
                                 rep.violation(format!("{:?} [{}]", bulk, hist_str(&h)), msg, json!({"target": format!("{:?}", bulk), "history": hist_json(&h)}));
+                            }
+                            // one further insert after the bulk call, for every key of the alphabet
+                            if matches!(bulk, Bulk::MapExtendIter | Bulk::MapExtendStream | Bulk::SetExtendIter | Bulk::SetExtendStream | Bulk::RawExtendIter | Bulk::RawExtendStream) && h.len() >= 2 {
+                                for a in alphabet.iter() {
+                                    st.states += 1;
+                                    st.transitions += 2;
+                                    st.evals += 1;
+                                    st.count("bulk_then_insert_calls", 1);
+                                    if let Err(msg) = run_bulk_then(bulk, &h, Some(a)) {
+                                        rep.violation(format!("{:?} [{}] then {}", bulk, hist_str(&h), key_str(&a.0)), msg, json!({"target": format!("{:?}", bulk), "history": hist_json(&h), "next": [hex(&a.0), a.1]}));
+                                    }
+                                }
                             }
                         }
                         if h.len() >= 2 && h.len() < depth || (h.len() == pre.len() && pre.len() >= 2 && h.len() < depth) {
